@@ -210,18 +210,16 @@ def index_reference(aligner, args):
     command = ""
     index_name = os.path.join(os.path.abspath(args.output), "%s_k%s_idx" % (ref_name, KMER_SIZE[args.data_type]))
     if aligner == "starlong":
-        if os.path.isdir(index_name) and os.path.exists(os.path.join(index_name, "genomeParameters.txt")):
-            logger.debug('Reusing reference index ' + index_name)
-            return index_name
+        # an index left in this folder by an earlier run is not reused by name: it may have been built from another
+        # reference of the same file name (or an older version of it, or be half-written), and store_index would then
+        # record it in the per-user cache as the index of THIS reference; find_stored_index (create_index) is the
+        # place where an index is reused, after comparing the recorded modification times
         exec_path = get_aligner('STARlong')
         if not os.path.isdir(index_name):
             os.makedirs(index_name)
         command = [exec_path, '--runMode', 'genomeGenerate', '--runThreadN', str(args.threads),
                    '--genomeDir', index_name, '--genomeFastaFiles', args.reference]
     elif aligner == "minimap2":
-        if os.path.isfile(index_name):
-            logger.debug('Reusing reference index ' + index_name)
-            return index_name
         minimap2_path = get_aligner('minimap2')
         command = [minimap2_path, '-t', str(args.threads),
                    '-k', str(KMER_SIZE[args.data_type]),
